@@ -72,7 +72,7 @@ def _family(args):
         for nx, nt in rr:
             t = np.linspace(0, math.sqrt(T_END), nt) ** 2
             obj = (IdealReservoir if kind == "ideal" else SinglePhaseReservoir)(nx, pf, pi, rdrv.flow_properties(tab_obj, pi))
-            with warnings.catch_warnings():
+            with warnings.catch_warnings(), env.time_limit(900, f"the simulation of rung nx={nx}, nt={nt}"):
                 warnings.simplefilter("ignore")
                 obj.simulate(t)
                 rf = np.array(obj.recovery_factor(), dtype=float)
